@@ -127,7 +127,7 @@ pub fn minimise(plan: &HistPlan, focus: Focus, class: &str, client: usize) -> (H
         best.clients[ci] = kept;
     }
     // 3. erase expectations that are not needed and simplify the interleaving
-    {
+    if !minimisation_expired() {
         let mut cand = best.clone();
         cand.interleave.clear();
         budget = budget.saturating_sub(1);
@@ -138,6 +138,9 @@ pub fn minimise(plan: &HistPlan, focus: Focus, class: &str, client: usize) -> (H
     // 4. shorten strings
     for ci in 0..best.clients.len() {
         for oi in 0..best.clients[ci].len() {
+            if minimisation_expired() {
+                break;
+            }
             let mut probe = best.clients[ci][oi].clone();
             let Some(s) = op_strings_mut(&mut probe).map(|s| s.clone()) else { continue };
             let base = best.clone();
@@ -163,6 +166,9 @@ pub fn minimise(plan: &HistPlan, focus: Focus, class: &str, client: usize) -> (H
     }
     // 5. drop model entries
     for mi in 0..best.models.len() {
+        if minimisation_expired() {
+            break;
+        }
         macro_rules! shrink_field {
             ($field:ident) => {{
                 let items = best.models[mi].$field.clone();
